@@ -6,6 +6,7 @@ PROP = {
         "configmigrate/c13_model_test.go",
         "configmigrate/c13_gen_test.go",
         "configmigrate/c13_props_test.go",
+        "configmigrate/c13_regress_test.go",
     ],
     "extra_overlay": {"internal/home/zz_verif_c13_load.go": "home/c13_load.go"},
     "level": "exploration",
@@ -18,7 +19,7 @@ PROP = {
         ("TestVFC13Bytes", (1500, 10000)),
         ("TestVFC13Auth", (30, 100), {"shards": (1, 8)}),
     ],
-    "plain": [],
+    "plain": ["TestVFC13RegressNullObject", "TestVFC13RegressNullDocument"],
     "shards": (2, 16),
     "workers": (4, 16),
     "rule": "tbd",
